@@ -87,7 +87,7 @@ def plan(pid, tier, seed):
             return [('A0', 1, V_ALL), ('A2', 1, V_AUTH), ('A3', 1, V_AUTH), ('A1', 16, V_AUTH), ('B', 12, V_PATH),
                     ('C', 10, V_PATH), ('D', 300, V_ALL), ('E', 1, ())]
         return [('A0', 1, V_ALL), ('A2', 1, V_AUTH), ('A3', 1, V_AUTH), ('A1', 1, V_AUTH), ('B', 1, V_PATH),
-                ('C', 1, V_PATH), ('D', 8, V_ALL), ('E', 1, ('fragment',))]
+                ('C', 1, V_PATH), ('D', 4, V_ALL), ('E', 1, ('fragment',))]
     if quick:
         return [('A0', 1, ()), ('A2', 1, ()), ('A3', 1, ()), ('A1', 8, ()), ('B', 12, ()),
                 ('C', 8, ()), ('E', 1, ()), ('S', 40, ()), ('SH', 5, ()), ('S2', 12, ())]
@@ -355,7 +355,8 @@ def run(chk):
         chk.validated(1)
         changed = rec['oc'] != 'value' or not rec['net'] or _s(rec['url']) != text
         chk.case(key=(text, fam['enc']), nontrivial=changed)
-        if len(chk.samples) < 5 and mi == (1 if c10 else 0) and fi % (97 if c10 else 1499) == 3:
+        if len(chk.samples) < 5 and mi == (1 if c10 else 0) and fi % (97 if c10 else 1499) == 3 \
+                and (not c10 or records[fi][0]['net']):
             chk.samples.append({'cluster': fam['cl'], 'tags': fam['tags'], 'encoding': fam['enc'],
                                 'family': [[k, _s(t)] for k, t in fam['m']],
                                 'real_outputs': [_s(r['url']) if r['oc'] == 'value' else r['oc'] for r in records[fi]]})
